@@ -6,6 +6,7 @@ import (
 	"go/parser"
 	"go/token"
 	"reflect"
+	"regexp"
 	"sort"
 	"strings"
 	"unicode"
@@ -55,7 +56,7 @@ func c14PartA(ctx *Ctx) (states, transitions int) {
 	if ctx.Level >= 1 {
 		maxLen = 5
 	}
-	capLists := [][]string{nil, {"ID"}, {"Id"}, {"URL", "ID"}, {"aB"}, {"日a"}}
+	capLists := [][]string{nil, {"ID"}, {"Id"}, {"URL", "ID"}, {"aB"}, {"日a"}, {"a"}, {"aa"}, {"aA", "ßa", "7a"}}
 	stateSeen := map[string]bool{}
 	transSeen := map[string]bool{}
 	n := len(c14Alphabet)
@@ -286,8 +287,27 @@ func c14(ctx *Ctx) {
 		defCases = append(defCases, SCase{ID: "C14/same-type-name/" + leaf, Cfg: baseCfg(), Axes: map[string]string{"pos": "same-type-name", "leaf": leaf},
 			Schema: J{"type": "object", "properties": J{"p0": J{"$ref": "#/$defs/SkuCode"}, "p1": J{"$ref": "#/$defs/sku-code"}}, "$defs": J{"SkuCode": first, "sku-code": second}}})
 	}
-	runBehaviour(ctx, behaviour{Name: "defnames", Cases: defCases, Values: true, Devs: []string{"LEN_BYTES"},
+	// a type whose schema is an anyOf (member types X_0, X_1 ...) and a different schema that normalises to the same name X: the
+	// suffix given to the colliding one must not run into the member type names; both orders of generation
+	for _, anyFirst := range []bool{true, false} {
+		branches := A{J{"type": "object", "properties": J{"a": J{"type": "string"}}, "required": A{"a"}}, J{"type": "object", "properties": J{"b": J{"type": "integer"}}, "required": A{"b"}}}
+		anyDef := J{"type": "object", "anyOf": branches}
+		plain := J{"type": "object", "properties": J{"c": J{"type": "boolean"}}, "required": A{"c"}}
+		defs := J{"sku.code": anyDef, "sku_code": plain} // definitions are generated in name order: '.' sorts before '_'
+		leaf := "anyof-then-plain"
+		if !anyFirst {
+			defs = J{"sku.code": plain, "sku_code": anyDef}
+			leaf = "plain-then-anyof"
+		}
+		defCases = append(defCases, SCase{ID: "C14/same-type-name/" + leaf, Cfg: baseCfg(), Axes: map[string]string{"pos": "same-type-name", "leaf": leaf},
+			Schema: J{"type": "object", "properties": J{"p0": J{"$ref": "#/$defs/sku.code"}, "p1": J{"$ref": "#/$defs/sku_code"}}, "$defs": defs}})
+	}
+	runBehaviour(ctx, behaviour{Name: "defnames", Cases: defCases, Values: true, Devs: []string{"LEN_BYTES", "ANYOF_MERGED_FIELD_TYPES"},
 		OnBuildErr: func(sc *SCase, msg string) {
+			if sc.Axes["leaf"] == "plain-then-anyof" && reSuffixedMember.MatchString(msg) && ctx.Run.Listed("ANYOF_SUFFIXED_NAME_MEMBERS_UNDEFINED") {
+				ctx.Run.Known("ANYOF_SUFFIXED_NAME_MEMBERS_UNDEFINED", sc.ID+": "+firstLine(msg), map[string]any{"kind": "gen", "files": sc.Case().Files, "args": sc.Case().Args, "cfg": sc.Case().Cfg})
+				return
+			}
 			if sc.Axes["leaf"] == "forward-ref-pair" && strings.Contains(msg, "redeclared") && ctx.Run.Listed("COLLIDING_NAME_FORWARD_REF_DECLARED_TWICE") {
 				ctx.Run.Known("COLLIDING_NAME_FORWARD_REF_DECLARED_TWICE", sc.ID+": "+firstLine(msg), map[string]any{"kind": "gen", "files": sc.Case().Files, "args": sc.Case().Args, "cfg": sc.Case().Cfg})
 				return
@@ -571,3 +591,5 @@ func safeIdent(f func() string) (id, panicked string) {
 	}()
 	return f(), ""
 }
+
+var reSuffixedMember = regexp.MustCompile(`undefined: \w+_\d+_\d+`)
